@@ -32,11 +32,17 @@
 
   Side conditions that sit in `Layout.ok` although they concern the program (`Prog.renderable`):
   every `br` has a mnemonic (`nzp ≠ 0`), string bodies contain no raw line feed / quote and do not end
-  in a lone backslash, and the program has **fewer than 65,535 words** (at exactly 65,535 words lace
-  rejects a `.break` / `.orig` that follows the last word, which `Prog.image` accepts; not covered).
+  in a lone backslash, and **after the 65,535th word only `.blkw 0` follows** (`fullOk`; true of every
+  program with fewer than 65,535 words, `fullOk_of_lt`).  That last condition marks a real difference
+  between lace and `Prog.image`: with a full image lace answers `too many` to a `.break` / `.orig` /
+  label that follows the last word, `Prog.image` accepts it.
+
+  * `lexKind_label_iff` (`Proofs/LexLabelIff.lean`) — over `[A-Za-z0-9_]` the lexer reads a name as a
+    label **iff** it is a `validLabel` (outside that alphabet lace reads e.g. `x-zz` as a label).
 -/
 import Lace.Props.C01Core
 import Lace.Proofs.RenderRel
+import Lace.Proofs.LexLabelIff
 namespace Lace.C01
 open Lace.Asm Lace.Spec Lace.C04
 
